@@ -98,10 +98,27 @@ def run(ctx):
         if "ase" in low or low == "all":
             kinds.add("ase")
         used = {}
+        # a draw is normal(loc, scale, size) or, equivalently, loc + scale * standard_normal(size): both are read as (std, loc, size)
+        draws = []
         for r in normals:
-            std = pull_scalars(r.arg(1, "scale"), scalar_atom) if isinstance(r.arg(1, "scale"), Form) else None
-            loc = r.arg(0, "loc")
-            size = r.arg(2, "size")
+            draws.append((pull_scalars(r.arg(1, "scale"), scalar_atom) if isinstance(r.arg(1, "scale"), Form) else None, r.arg(0, "loc"), r.arg(2, "size"), r.result, r))
+        Yn = Y / S("R_load") if isinstance(Y, Form) else None
+        for r in it.calls:
+            if r.callee in ("numpy.random.standard_normal", "numpy.random.randn") or (r.callee or "").endswith(">.standard_normal"):
+                R = r.result
+                ra = R.single_atom() if isinstance(R, Form) else None
+                if ra is None or Yn is None:
+                    continue
+                part = Form({m: c for m, c in Yn.terms.items() if any(a == ra and e == 1 for a, e in m)})
+                if part.is_zero():
+                    continue
+                try:
+                    coeff = part / R
+                except Exception:
+                    continue
+                size = r.arg(0, "size")
+                draws.append((pull_scalars(coeff, scalar_atom), Form.num(0), size, coeff * R, r))
+        for std, loc, size, result_, r in draws:
             which = "thermal" if std == std_T else ("shot" if std == std_N else None)
             okmeta = isinstance(loc, Form) and loc.is_zero() and isinstance(size, Form) and size == N
             if which is None:
@@ -110,11 +127,11 @@ def run(ctx):
                 ref = std_T if meant == "thermal" else std_N
                 ctx.violation("C09.2", fi, r.node, f"{meant} noise std = {std!r}"[:400],
                               f"differs from the documented {'sqrt(4 kB T Fn (fs/2)/R_load)' if meant == 'thermal' else 'sqrt(2 e (r*mean|E|^2 + r*P_noise + i_dark)(fs/2))'} = {ref!r}")
-                used[meant] = r.result
+                used[meant] = result_
             else:
                 ctx.check("C09.2", okmeta, fi, r.node, f"{which} noise [{'n_pol=%d noise=%s' % (npol, noise)}]: normal(0, {std!r}, N)"[:400], "zero-mean, documented variance, N samples",
                           "normal draw is not zero-mean with one sample per input sample")
-                used[which] = r.result
+                used[which] = result_
         for k in ("thermal", "shot"):
             if k in kinds:
                 if k in used:
